@@ -308,18 +308,41 @@ def case_flat(ctx, i, rng):
         ctx.sample(dict(w, result=short(cfg, 400)))
 
 
+def _with_environ(env, fn, *a, **k):
+    old = {key: os.environ.get(key) for key in env}
+    os.environ.update(env)
+    try:
+        return call(fn, *a, **k)
+    finally:
+        for key, v in old.items():
+            if v is None:
+                os.environ.pop(key, None)
+            else:
+                os.environ[key] = v
+
+
 def case_sub(ctx, i, rng):
     parent_links = rng.random() < 0.4
     p = build_sub(parent_links=parent_links)
     x = rng.randrange(1, 60)
     links = [(["fit.x"], "fit.y", double, "plain"), (["fit.x"], "fit.mm.init_args.a", None, "init_arg")]
-    channel = rng.choice(["argv", "object", "string", "cfg-arg", "reparse"])
+    channel = rng.choice(["argv", "object", "string", "cfg-arg", "reparse", "env", "env"])
     user_y = rng.random() < 0.4
+    if channel == "env" and rng.random() < 0.5:
+        x = None  # the subcommand is named by the environment, the link's source keeps its default
     sect = {"x": x}
     if user_y:
         sect["y"] = 7777
     doc = {"subcommand": "fit", "fit": sect}
-    if channel == "argv":
+    if channel == "env":
+        env = {"APP_SUBCOMMAND": "fit"}
+        if x is not None:
+            env["APP_FIT__X"] = str(x)
+        if user_y:
+            env["APP_FIT__Y"] = "7777"
+        o = call(p.parse_env, env) if rng.random() < 0.5 else _with_environ(env, p.parse_args, [], env=True)
+        ctx.count("st.subcommand_links.named_by_environment" + ("" if x is not None else ".source_default_only"))
+    elif channel == "argv":
         o = call(p.parse_args, ["fit", f"--x={x}"])
     elif channel == "object":
         o = call(p.parse_object, copy.deepcopy(doc))
